@@ -14,6 +14,7 @@ limitations under the License.
 package dir
 
 import (
+	"errors"
 	"fmt"
 	"os"
 	"path/filepath"
@@ -70,6 +71,13 @@ func (d *Dir) Write(files map[string][]byte) error {
 		}
 		verifPoint("after-write-file")
 		d.log.Infof("Written file %s", file)
+	}
+
+	// A process that died between the symlink and the rename below has left
+	// "<target>.new" behind. Remove it, otherwise the symlink fails with "file
+	// exists" on this and every later write.
+	if err := os.Remove(d.target + ".new"); err != nil && !errors.Is(err, os.ErrNotExist) {
+		return err
 	}
 
 	verifPoint("before-symlink")
